@@ -92,10 +92,20 @@ pub async fn run_acb_app_to_delta_models(
     let mut delta_results = HashMap::<Security, DeltaListResult>::new();
 
     for (sec, mut sec_txs) in txs_by_sec {
-        crate::portfolio::splits::replace_global_security_splits(&mut sec_txs)?;
-
         let sec_init_status =
             all_init_status.get(&sec).map(|o| std::rc::Rc::new(o.clone()));
+
+        // The initial status belongs to the default affiliate, so global splits
+        // must reach its shares even if it has no Txs of its own.
+        let init_status_affiliates = if sec_init_status.is_some() {
+            vec![crate::portfolio::Affiliate::default()]
+        } else {
+            Vec::new()
+        };
+        crate::portfolio::splits::replace_global_security_splits_for(
+            &mut sec_txs,
+            &init_status_affiliates,
+        )?;
 
         let deltas_res = txs_to_delta_list(&sec_txs, sec_init_status);
         delta_results.insert(sec, deltas_res);
